@@ -8,12 +8,15 @@ import (
 	"sync"
 	"sync/atomic"
 	"testing/iotest"
+	"time"
 
 	"github.com/datastax/go-cassandra-native-protocol/frame"
 	"github.com/datastax/go-cassandra-native-protocol/primitive"
 
 	"verif/fcheck"
 	"verif/gen"
+	"verif/iso"
+	"verif/mutfam"
 	"verif/vlib"
 )
 
@@ -54,6 +57,10 @@ type prev struct {
 }
 
 func main() {
+	if iso.IsWorker() {
+		iso.WorkerMain()
+		return
+	}
 	c := vlib.New("C05", "model_checking")
 	o := fcheck.Opts(c)
 	var evals, validated, reenc int64
@@ -218,6 +225,20 @@ func main() {
 			reencode(c, cs, codec, comp, wire, &reenc)
 		}
 	})
+	// re-encode clause over mutated-but-decodable inputs (run in memory-limited sub-processes, see C04)
+	mutfam.BuildCorpus(c.Thorough())
+	rst, err := iso.Run(iso.Lookup("c05-reencode"), 768<<20, 120*time.Second, c.Deadline(), mutfam.DescribeReencode)
+	if err != nil {
+		c.Broken("isolated executor: %v", err)
+	}
+	for _, f := range rst.Findings {
+		c.Violation(f.Keys, f.What, f.Replay)
+	}
+	if rst.Truncated {
+		c.Cap("internal deadline reached in the re-encode clause over mutated inputs")
+	}
+	reenc += rst.Cases
+	c.Set("reencode_mutants", rst.Cases)
 	c.Sample(map[string]interface{}{"note": "each frame goes through 7 paths x 4 source kinds (seekable, plain, one-byte, half readers)"})
 	c.Set("states", n)
 	c.Set("transitions", evals*5+reenc)
